@@ -14,6 +14,8 @@ use ckc_rs::{PokerCard, Shifty};
 #[cfg_attr(kani, kani::proof)]
 pub fn c08_card_shift() {
     let (w, r, s) = any_card();
+    // priming call on an unrelated arbitrary input: a memo / cache in front of a pure function would show here
+    let _ = word((r + 3) % 13, (s + 1) % 4).shift_suit();
     let sh = w.shift_suit();
     check!(sh == word(r, (s + 3) % 4), "spades->hearts->diamonds->clubs->spades, rank kept");
     check!(sh.shift_suit().shift_suit().shift_suit() == w, "four shifts restore the card");
